@@ -233,7 +233,16 @@ def stepOp (d : DS) (op implObs : String) : DS × String × List String × List 
       if id ∈ s.regIds then finish d (start s id) "ok" [] ["branch:start"] else finish d s "absent" [] ["branch:absent"]
     | "stop" =>
       let id := refId d (kvNat toks "t")
-      if id ∈ s.regIds then finish d (stop s id) "ok" [] ["branch:stop"] else finish d s "absent" [] ["branch:absent"]
+      -- C14: the started flag of the stored record is the one set by the last Start/Stop — whatever the status of
+      -- the torrent was when the command came (a torrent loaded without resuming is stopped with a record that
+      -- says started)
+      let rec? := match parseObs s.lo s.hi implObs d.junk with
+        | some (_, o) => dbGet o.db id
+        | none => none
+      let v := match rec? with
+        | some r => if r.started then [s!"C14 stop-not-recorded id={id}"] else []
+        | none => []
+      if id ∈ s.regIds then finish d (stop s id) "ok" v ["branch:stop"] else finish d s "absent" [] ["branch:absent"]
     | "addtracker" =>
       let id := refId d (kvNat toks "t")
       let url := kvStr toks "url"
